@@ -168,6 +168,9 @@ func (c *Coder) DecodeHeader(data []byte, h *MessageHeader) (int, error) {
 
 	lenNib := (firstByte & 0xf0) >> 4
 	tkl := firstByte & 0x0f
+	if tkl > message.MaxTokenSize {
+		return -1, message.ErrInvalidTokenLen
+	}
 
 	var opLen int
 	switch {
